@@ -2,112 +2,128 @@
    type grammar / class tables of TyModel.v; stdlib primitives are oracles returning a value or the exception
    class CPython raises).  All statements are for every class table E and every oracle Q. *)
 From Coq Require Import List String ZArith Bool.
-From Verif Require Import Core TyModel Errs ErrsProofs ErrsTy ErrsTyProofs.
+From Verif Require Import Core TupleIdx TyModel Errs ErrsProofs ErrsTy ErrsTyProofs.
 Import ListNotations.
 Open Scope string_scope.
 Open Scope list_scope.
 
 (* a dataclass position IS the field loop of Errs.v with the typed unpackers as field decoders: all C05
    theorems of C05_errors.v therefore hold for typed schemas, nested to any depth *)
-Theorem C05_typed_link : forall E Q c k d, sfind E KData c = Some k ->
-  ue E Q d (UData c) = from_dict (cspec_of E Q k) d.
+Theorem C05_typed_link : forall E Q CF c k d, sfind E KData c = Some k ->
+  ue E Q CF d (UData c) = from_dict (cspec_of E Q CF k) d.
 Proof. exact ue_data_from_dict. Qed.
 Print Assumptions C05_typed_link.
 
-Theorem C05_typed_outcomes : forall E Q c k d, sfind E KData c = Some k ->
-  documented (cspec_of E Q k) d (ue E Q d (UData c)).
+Theorem C05_typed_outcomes : forall E Q CF c k d, sfind E KData c = Some k ->
+  documented (cspec_of E Q CF k) d (ue E Q CF d (UData c)).
 Proof. exact typed_outcomes. Qed.
 Print Assumptions C05_typed_outcomes.
 
-Theorem C05_typed_first_bad : forall E Q c k kvs pre f post b, sfind E KData c = Some k ->
-  map (fspec_of E Q) (sc_fields k) = pre ++ f :: post ->
+Theorem C05_typed_first_bad : forall E Q CF c k kvs pre f post b, sfind E KData c = Some k ->
+  map (fspec_of E Q CF (CF c)) (sc_fields k) = pre ++ f :: post ->
+  (tc_forbid (CF c) = true -> extras_of (CF c) (sc_fields k) kvs = []) ->
   Forall (fun g => field_bad kvs g = None) pre -> field_bad kvs f = Some b ->
-  ue E Q (VDict kvs) (UData c) = Exn (exn_of_bad c f b).
+  ue E Q CF (VDict kvs) (UData c) = Exn (exn_of_bad c f b).
 Proof. exact typed_first_bad. Qed.
 Print Assumptions C05_typed_first_bad.
 
 (* InvalidFieldValue names a field of the class, carries the input value found under its key, and its
    __context__ (ue_cause) is the exception that field's own unpacker raised on that value *)
-Theorem C05_typed_cause : forall E Q c k kvs fn v h, sfind E KData c = Some k ->
-  ue E Q (VDict kvs) (UData c) = Exn (XInvalidFieldValue fn v h) ->
+Theorem C05_typed_cause : forall E Q CF c k kvs fn v h, sfind E KData c = Some k ->
+  ue E Q CF (VDict kvs) (UData c) = Exn (XInvalidFieldValue fn v h) ->
   exists f e, In f (sc_fields k) /\ fn = sf_name f /\ h = c /\
-              d_lookup kvs (VStr (sf_name f)) = Some v /\
-              ue E Q v (cu false (sf_ty f)) = Exn e /\
-              ue_cause E Q k (VDict kvs) = Some e.
+              lookup_field kvs (fspec_of E Q CF (CF c) f) = Some v /\
+              ue E Q CF v (cu false (sf_ty f)) = Exn e /\
+              ue_cause E Q CF k (VDict kvs) = Some e.
 Proof. exact typed_cause. Qed.
 Print Assumptions C05_typed_cause.
 
 (* nested dataclass: the cause is one of the INNER class's documented outcomes about the inner input *)
-Theorem C05_typed_nested_cause : forall E Q c k kvs fn v h f e c2 k2,
-  sfind E KData c = Some k ->
-  ue E Q (VDict kvs) (UData c) = Exn (XInvalidFieldValue fn v h) ->
-  In f (sc_fields k) -> fn = sf_name f -> cu false (sf_ty f) = UData c2 -> sfind E KData c2 = Some k2 ->
-  ue E Q v (cu false (sf_ty f)) = Exn e ->
-  documented (cspec_of E Q k2) v (Exn e).
+Theorem C05_typed_nested_cause : forall E Q CF v f e c2 k2,
+  cu false (sf_ty f) = UData c2 -> sfind E KData c2 = Some k2 ->
+  ue E Q CF v (cu false (sf_ty f)) = Exn e ->
+  documented (cspec_of E Q CF k2) v (Exn e).
 Proof. exact typed_nested_cause. Qed.
 Print Assumptions C05_typed_nested_cause.
 
+(* forbid_extra_keys at the type level (per-class Config: aliases, allow_deserialization_not_by_alias): exactly the
+   keys of the input that are neither an alias-or-name nor (when allowed) a name *)
+Theorem C05_typed_extra_exact : forall E Q CF c k kvs, sfind E KData c = Some k ->
+  tc_forbid (CF c) = true -> extras_of (CF c) (sc_fields k) kvs <> [] ->
+  ue E Q CF (VDict kvs) (UData c) = Exn (XExtraKeys (extras_of (CF c) (sc_fields k) kvs) c).
+Proof. exact typed_extra_exact. Qed.
+Print Assumptions C05_typed_extra_exact.
+
 (* containers: which exceptions an unpacker can raise *)
-Theorem C05_list_exn : forall E Q l u e, ue E Q (VList l) (UListComp u) = Exn e ->
-  exists x, In x l /\ ue E Q x u = Exn e.
+Theorem C05_list_exn : forall E Q CF l u e, ue E Q CF (VList l) (UListComp u) = Exn e ->
+  exists x, In x l /\ ue E Q CF x u = Exn e.
 Proof. exact list_exn. Qed.
 Print Assumptions C05_list_exn.
 
-Theorem C05_list_ok : forall E Q l u r, ue E Q (VList l) (UListComp u) = Ok r ->
-  exists ys, r = VList ys /\ Forall2 (fun x y => ue E Q x u = Ok y) l ys.
+Theorem C05_list_ok : forall E Q CF l u r, ue E Q CF (VList l) (UListComp u) = Ok r ->
+  exists ys, r = VList ys /\ Forall2 (fun x y => ue E Q CF x u = Ok y) l ys.
 Proof. exact list_ok. Qed.
 Print Assumptions C05_list_ok.
 
-Theorem C05_list_not_iterable : forall E Q d u,
+Theorem C05_list_not_iterable : forall E Q CF d u,
   match d with VNone | VBool _ | VInt _ | VFloat _ => True | _ => False end ->
-  ue E Q d (UListComp u) = Exn XTypeError.
+  ue E Q CF d (UListComp u) = Exn XTypeError.
 Proof. exact list_not_iterable. Qed.
 Print Assumptions C05_list_not_iterable.
 
-Theorem C05_dict_exn : forall E Q kvs ku vu e, ue E Q (VDict kvs) (UDictComp ku vu) = Exn e ->
+Theorem C05_dict_exn : forall E Q CF kvs ku vu e, ue E Q CF (VDict kvs) (UDictComp ku vu) = Exn e ->
   exists k x, In (k, x) kvs /\
-    (ue E Q k ku = Exn e \/ ue E Q x vu = Exn e \/
-     (e = XTypeError /\ exists k', ue E Q k ku = Ok k' /\ hashable k' = false)).
+    (ue E Q CF k ku = Exn e \/ ue E Q CF x vu = Exn e \/
+     (e = XTypeError /\ exists k', ue E Q CF k ku = Ok k' /\ hashable k' = false)).
 Proof. exact dict_exn. Qed.
 Print Assumptions C05_dict_exn.
 
-Theorem C05_dict_not_mapping : forall E Q d ku vu, is_dict d = false ->
-  ue E Q d (UDictComp ku vu) = Exn XAttributeError.
+Theorem C05_dict_not_mapping : forall E Q CF d ku vu, is_dict d = false ->
+  ue E Q CF d (UDictComp ku vu) = Exn XAttributeError.
 Proof. exact dict_not_mapping. Qed.
 Print Assumptions C05_dict_not_mapping.
 
-Theorem C05_tuplefix_exn : forall E Q us l e, ue E Q (VList l) (UTupleFix us) = Exn e ->
-  (exists i x u, nth_error l i = Some x /\ nth_error us i = Some u /\ ue E Q x u = Exn e) \/
+Theorem C05_tuplefix_exn : forall E Q CF us l e, ue E Q CF (VList l) (UTupleFix us) = Exn e ->
+  (exists i x u, nth_error l i = Some x /\ nth_error us i = Some u /\ ue E Q CF x u = Exn e) \/
   (e = XIndexError /\ (List.length l < List.length us)%nat).
 Proof. exact tuplefix_exn. Qed.
 Print Assumptions C05_tuplefix_exn.
 
-Theorem C05_typeddict_exn : forall E Q c k kvs e,
+(* Tuple[pre..., *Tuple[t, ...], post...] on a list: IndexError for a head / tail position past the end, or an
+   item's own exception unchanged (TypeError only for a malformed index plan, which cu never builds) *)
+Theorem C05_tupleu_var_exn : forall E Q CF plan pre u post l e,
+  ue E Q CF (VList l) (UTupleU plan pre (UTupleVar u) post) = Exn e ->
+  e = XIndexError \/ e = XTypeError \/
+  exists u' x, (In u' pre \/ u' = u \/ In u' post) /\ In x l /\ ue E Q CF x u' = Exn e.
+Proof. exact tupleu_var_exn. Qed.
+Print Assumptions C05_tupleu_var_exn.
+
+Theorem C05_typeddict_exn : forall E Q CF c k kvs e,
   sfind E KTyped c = Some k ->
-  ue E Q (VDict kvs) (UTyped c) = Exn e ->
+  ue E Q CF (VDict kvs) (UTyped c) = Exn e ->
   e = XKeyError \/
   exists f x, In f (sc_fields k) /\ d_lookup kvs (VStr (sf_name f)) = Some x /\
-              ue E Q x (cu true (sf_ty f)) = Exn e.
+              ue E Q CF x (cu true (sf_ty f)) = Exn e.
 Proof. exact typeddict_exn. Qed.
 Print Assumptions C05_typeddict_exn.
 
 (* NamedTuple (with or without defaults): an item that is present in the input is decoded by its own
    unpacker and that result is what the tuple holds -- never a default (the defect repaired by 8ccb0df) *)
-Theorem C05_namedtuple_no_silent_default : forall E Q c k l r,
+Theorem C05_namedtuple_no_silent_default : forall E Q CF c k l r,
   sfind E KNamed c = Some k ->
-  ue E Q (VList l) (UNamed c) = Ok r ->
+  ue E Q CF (VList l) (UNamed c) = Ok r ->
   exists items, r = VNT c items /\
     forall i x f, nth_error l i = Some x -> nth_error (sc_fields k) i = Some f ->
-      exists y, ue E Q x (cu true (sf_ty f)) = Ok y /\ nth_error items i = Some y.
+      exists y, ue E Q CF x (cu true (sf_ty f)) = Ok y /\ nth_error items i = Some y.
 Proof. exact namedtuple_no_silent_default. Qed.
 Print Assumptions C05_namedtuple_no_silent_default.
 
-Theorem C05_namedtuple_exn : forall E Q c k l e,
+Theorem C05_namedtuple_exn : forall E Q CF c k l e,
   sfind E KNamed c = Some k ->
-  ue E Q (VList l) (UNamed c) = Exn e ->
+  ue E Q CF (VList l) (UNamed c) = Exn e ->
   (exists i x f, nth_error l i = Some x /\ nth_error (sc_fields k) i = Some f /\
-                 ue E Q x (cu true (sf_ty f)) = Exn e) \/
-  (exists rest, nt_tail konst_u (nt_exhausted (TyModel.has_default (sc_fields k))) rest = Exn e).
+                 ue E Q CF x (cu true (sf_ty f)) = Exn e) \/
+  (exists rest, nt_tail (konst_u E) (nt_exhausted (TyModel.has_default (sc_fields k))) rest = Exn e).
 Proof. exact namedtuple_exn. Qed.
 Print Assumptions C05_namedtuple_exn.
 
@@ -136,45 +152,71 @@ Definition E0 : senv :=
                       {| sf_name := "b"; sf_ty := STupleFix [SIntT; SIntT]; sf_default := Some (VTuple [VInt 0; VInt 0]); sf_opt := false |};
                       {| sf_name := "c"; sf_ty := SIntT; sf_default := Some (VInt 7); sf_opt := false |} ] |} ].
 
+(* Inner: forbid_extra_keys, x aliased "X", allow_deserialization_not_by_alias *)
+Definition CF0 : string -> tcfg := fun c =>
+  if String.eqb c "Inner" then {| tc_forbid := true; tc_nba := true; tc_alias := [("x", "X")] |} else no_cfg.
+
 Definition inner_bad : pv := VDict [(VStr "x", VInt 1); (VStr "ys", VList [VInt 2; VStr "q"])].
 
 (* Outer.from_dict({"a": 1, "inner": {"x": 1, "ys": [2, "q"]}}): InvalidFieldValue('inner', <inner input>, Outer);
    cause InvalidFieldValue('ys', [2, "q"], Inner); whose cause is int("q") -> ValueError *)
 Example C05_typed_ex_nested :
-  ue E0 Q0 (VDict [(VStr "a", VInt 1); (VStr "inner", inner_bad)]) (UData "Outer")
+  ue E0 Q0 CF0 (VDict [(VStr "a", VInt 1); (VStr "inner", inner_bad)]) (UData "Outer")
     = Exn (XInvalidFieldValue "inner" inner_bad "Outer")
-  /\ ue E0 Q0 inner_bad (UData "Inner") = Exn (XInvalidFieldValue "ys" (VList [VInt 2; VStr "q"]) "Inner")
-  /\ ue E0 Q0 (VList [VInt 2; VStr "q"]) (UListComp (UScalar SInt)) = Exn XValueError.
+  /\ ue E0 Q0 CF0 inner_bad (UData "Inner") = Exn (XInvalidFieldValue "ys" (VList [VInt 2; VStr "q"]) "Inner")
+  /\ ue E0 Q0 CF0 (VList [VInt 2; VStr "q"]) (UListComp (UScalar SInt)) = Exn XValueError.
 Proof. repeat split; reflexivity. Qed.
 
 Example C05_typed_ex_cause :
   match sfind E0 KData "Outer" with
-  | Some k => ue_cause E0 Q0 k (VDict [(VStr "a", VInt 1); (VStr "inner", inner_bad)])
+  | Some k => ue_cause E0 Q0 CF0 k (VDict [(VStr "a", VInt 1); (VStr "inner", inner_bad)])
               = Some (XInvalidFieldValue "ys" (VList [VInt 2; VStr "q"]) "Inner")
   | None => False end.
 Proof. reflexivity. Qed.
 
 (* first bad field in declaration order: a is bad (TypeError inside), inner is missing: a decides *)
 Example C05_typed_ex_order :
-  ue E0 Q0 (VDict [(VStr "opt", VInt 5); (VStr "a", VNone)]) (UData "Outer") = Exn (XInvalidFieldValue "a" VNone "Outer")
-  /\ ue E0 Q0 (VDict [(VStr "opt", VInt 5); (VStr "a", VInt 3)]) (UData "Outer") = Exn (XMissingField "inner" "Outer")
-  /\ ue E0 Q0 (VDict [(VStr "opt", VInt 5); (VStr "a", VInt 3); (VStr "inner", VDict [(VStr "x", VInt 0)])]) (UData "Outer")
+  ue E0 Q0 CF0 (VDict [(VStr "opt", VInt 5); (VStr "a", VNone)]) (UData "Outer") = Exn (XInvalidFieldValue "a" VNone "Outer")
+  /\ ue E0 Q0 CF0 (VDict [(VStr "opt", VInt 5); (VStr "a", VInt 3)]) (UData "Outer") = Exn (XMissingField "inner" "Outer")
+  /\ ue E0 Q0 CF0 (VDict [(VStr "opt", VInt 5); (VStr "a", VInt 3); (VStr "inner", VDict [(VStr "x", VInt 0)])]) (UData "Outer")
      = Exn (XInvalidFieldValue "opt" (VInt 5) "Outer").
 Proof. repeat split; reflexivity. Qed.
 
 (* NT <- [1, [5], 9]: the IndexError of the nested tuple propagates (before 8ccb0df: NT(1, (0, 0), 7));
    NT <- [1]: defaults;  NT <- []: TypeError (missing positional argument);  NT <- {0: 1}: KeyError *)
 Example C05_typed_ex_namedtuple :
-  ue E0 Q0 (VList [VInt 1; VList [VInt 5]; VInt 9]) (UNamed "NT") = Exn XIndexError
-  /\ ue E0 Q0 (VList [VInt 1]) (UNamed "NT") = Ok (VNT "NT" [VInt 1; VTuple [VInt 0; VInt 0]; VInt 7])
-  /\ ue E0 Q0 (VList []) (UNamed "NT") = Exn XTypeError
-  /\ ue E0 Q0 (VDict [(VInt 0, VInt 1)]) (UNamed "NT") = Exn XKeyError
-  /\ ue E0 Q0 (VInt 5) (UNamed "NT") = Exn XTypeError.
+  ue E0 Q0 CF0 (VList [VInt 1; VList [VInt 5]; VInt 9]) (UNamed "NT") = Exn XIndexError
+  /\ ue E0 Q0 CF0 (VList [VInt 1]) (UNamed "NT") = Ok (VNT "NT" [VInt 1; VTuple [VInt 0; VInt 0]; VInt 7])
+  /\ ue E0 Q0 CF0 (VList []) (UNamed "NT") = Exn XTypeError
+  /\ ue E0 Q0 CF0 (VDict [(VInt 0, VInt 1)]) (UNamed "NT") = Exn XKeyError
+  /\ ue E0 Q0 CF0 (VInt 5) (UNamed "NT") = Exn XTypeError.
 Proof. repeat split; reflexivity. Qed.
 
 Example C05_typed_ex_containers :
-  ue E0 Q0 (VInt 5) (UListComp (UScalar SInt)) = Exn XTypeError
-  /\ ue E0 Q0 (VList [VInt 1]) (UDictComp (UScalar SStr) (UScalar SInt)) = Exn XAttributeError
-  /\ ue E0 Q0 (VStr "12") (UListComp (UScalar SInt)) = Exn XValueError
-  /\ ue E0 Q0 (VInt 5) (UData "Inner") = Exn XValueError.
+  ue E0 Q0 CF0 (VInt 5) (UListComp (UScalar SInt)) = Exn XTypeError
+  /\ ue E0 Q0 CF0 (VList [VInt 1]) (UDictComp (UScalar SStr) (UScalar SInt)) = Exn XAttributeError
+  /\ ue E0 Q0 CF0 (VStr "12") (UListComp (UScalar SInt)) = Exn XValueError
+  /\ ue E0 Q0 CF0 (VInt 5) (UData "Inner") = Exn XValueError.
+Proof. repeat split; reflexivity. Qed.
+
+(* Config at the type level: alias read first, then the name; extra keys rejected before any field *)
+Example C05_typed_ex_config :
+  ue E0 Q0 CF0 (VDict [(VStr "X", VInt 1)]) (UData "Inner") = Ok (VObj "Inner" [("x", VInt 1); ("ys", VList [])])
+  /\ ue E0 Q0 CF0 (VDict [(VStr "x", VInt 2)]) (UData "Inner") = Ok (VObj "Inner" [("x", VInt 2); ("ys", VList [])])
+  /\ ue E0 Q0 CF0 (VDict [(VStr "x", VNone); (VStr "zz", VInt 1); (VInt 3, VNone)]) (UData "Inner")
+     = Exn (XExtraKeys [VStr "zz"; VInt 3] "Inner")
+  /\ ue E0 Q0 CF0 (VDict [(VStr "a", VInt 1); (VStr "inner", VDict [(VStr "X", VInt 1); (VStr "zz", VInt 1)])]) (UData "Outer")
+     = Exn (XInvalidFieldValue "inner" (VDict [(VStr "X", VInt 1); (VStr "zz", VInt 1)]) "Outer").
+Proof. repeat split; reflexivity. Qed.
+
+(* Tuple[int, *Tuple[int, ...], int] (cu of STupleU): short input -> IndexError; a bad item -> its own ValueError;
+   a scalar -> TypeError; a dict -> KeyError *)
+Definition tu_int : pdec := cu true (STupleU [SIntT] (STupleVar SIntT) [SIntT]).
+Example C05_typed_ex_tupleu :
+  ue E0 Q0 CF0 (VList [VInt 1; VInt 2; VInt 3; VInt 4]) tu_int = Ok (VTuple [VInt 1; VInt 2; VInt 3; VInt 4])
+  /\ ue E0 Q0 CF0 (VList []) tu_int = Exn XIndexError
+  /\ ue E0 Q0 CF0 (VList [VInt 1; VStr "q"; VInt 3]) tu_int = Exn XValueError
+  /\ ue E0 Q0 CF0 (VInt 5) tu_int = Exn XTypeError
+  /\ ue E0 Q0 CF0 (VDict [(VStr "k", VInt 1)]) tu_int = Exn XKeyError
+  /\ ue E0 Q0 CF0 (VDict [(VInt 0, VInt 1)]) tu_int = Exn XKeyError.
 Proof. repeat split; reflexivity. Qed.
